@@ -216,35 +216,30 @@ func VH_C06_fault3(kind, op1, op2, op3 int) {
 	e := vhC06New(kind)
 	e.fs.failAt = vsymInt("failAt", 1, 6)
 	ref := []*vhC06Ref{{id: vhIdD(0)}, {id: vhIdD(1)}}
-	var failedAdd *vhC06Ref // the id named by an add that the fault made fail
 	for step, op := range []int{op1, op2, op3} {
 		before := e.fs.failed
 		err, r := vhC06Op(e, ref, step+1, op)
 		if e.fs.failed && !before {
 			vassert(err != nil, "storage-failure-reported")
 			if op == 0 || op == 1 || op == 4 {
-				failedAdd = r
+				// a failed write is not an erasure: right after it, what had been acknowledged
+				// before is still in storage (the id it names keeps a value if it had one; the
+				// other ids are untouched). What later operations do on top of the failed
+				// write's in-memory residue is not judged here.
+				env2 := vhC06Reload(e)
+				for _, x := range ref {
+					if x == r {
+						if x.fact != nil {
+							_, gerr := env2.state.Get(env2.ctx, x.id)
+							vassert(gerr == nil, "failed-write-does-not-erase-the-acknowledged-item")
+						}
+					} else {
+						vassert(vhC06Same(env2, x), "failed-write-leaves-other-ids-unchanged")
+					}
+				}
 			}
 		} else {
 			vassert(err == nil, "operation-succeeds-without-fault")
-		}
-	}
-	if failedAdd != nil {
-		// a failed write is not an erasure: what had been acknowledged before is still in
-		// storage (the id it names keeps a value if it had one; other ids are untouched)
-		env2 := vhC06Reload(e)
-		for _, r := range ref {
-			if r == failedAdd {
-				if r.fact != nil {
-					_, gerr := env2.state.Get(env2.ctx, r.id)
-					vassert(gerr == nil, "failed-write-does-not-erase-the-acknowledged-item")
-				}
-			} else if r.dependsOn != failedAdd {
-				vassert(vhC06Same(env2, r), "failed-write-leaves-other-ids-unchanged")
-			} else if r.fact != nil {
-				_, gerr := env2.state.Get(env2.ctx, r.id)
-				vassert(gerr == nil, "failed-write-leaves-other-ids-unchanged")
-			}
 		}
 	}
 	vreach("end")
